@@ -5,7 +5,8 @@ the call of the openapi driver and the evaluation of exchanges by TLC under sets
 import json, os
 from . import core, httpgen as hg, httpcheck as hc
 
-XDEVS = ["schema.empty_value_allowed", "schema.map_key_rule_undocumented", "schema.map_length_undocumented", "schema.uint_minimum_missing",
+RD = ("rd", "rd+omit")      # the attribute is Required AND has a Default (OpenAPIOps.tla xflag)
+XDEVS = ["schema.required_with_default_not_required", "schema.empty_value_allowed", "schema.map_key_rule_undocumented", "schema.map_length_undocumented", "schema.uint_minimum_missing",
          "schema.optional_not_nullable", "schema.bytes_length_on_encoded_text", "schema.response_cookie_value_schema", "schema.error_response_media_type"]
 TDEVS = ["param.empty_string_is_absent", "validate.absent_collection_length", "client.path_not_escaped", "mux.double_unescape",
          "response.header_array_joined", "cookie.value_sanitized", "validate.exclusive_max_unchecked", "decode.required_cookie_drops_param_errors"]
@@ -45,6 +46,8 @@ def sample_shapes(shapes, nshapes, seed):
     for k in keys:      # the shapes raw requests are built for (plain attribute without rule): every kind, every location
         if by[k]["nest"] == "direct" and by[k]["rule"] == "none":
             pairs[k] |= {("raw-kind", by[k]["kind"]), ("raw-loc", by[k]["loc"], by[k]["mode"])}
+            if by[k]["mode"] == "required" and by[k]["loc"] != "path" and hg.default_of(by[k]) is not None:
+                pairs[k].add(("required+default", by[k]["loc"]))      # every location gets a Required + Default attribute
     todo = set().union(*pairs.values())
     keep = []
     while todo:
@@ -81,7 +84,7 @@ def raw_request(v, meth):
     if v["flag"] == "null":
         body = json.dumps({"a1": None})
         headers["Content-Type"] = ["application/json"]
-    elif v["flag"] == "omit":
+    elif v["flag"] in ("omit", "rd+omit"):
         if a["loc"] == "body":
             body = "{}"
             headers["Content-Type"] = ["application/json"]
@@ -108,17 +111,23 @@ def run_exchanges(ctx, groups, per_design=40, name="gen-x"):
     for tag, vectors in groups:
         shapes, index = [], {}
         for v in vectors:
-            k = hg.shape_key(v)
+            k = (hg.shape_key(v), v.get("flag") in RD)
             if k not in index:
                 index[k] = len(shapes)
-                shapes.append({"pa": v["pa"], "ra": v["ra"], "tagged": v.get("tagged", False)})
-        ds, where = hg.pack_designs(shapes, per_design)
+                shapes.append({"pa": v["pa"], "ra": v["ra"], "tagged": v.get("tagged", False), "rd": k[1]})
+        ds, where = hg.pack_designs([{x: sh[x] for x in ("pa", "ra", "tagged")} for sh in shapes], per_design)
         base = len(designs)
         for d in ds:
             d["api"]["name"] = "a%d" % (len(designs) + 1)
             designs.append(d)
+        for si, sh in enumerate(shapes):      # the fourth mode: Required(...) and Default(...) on payload attribute a1
+            if sh["rd"]:
+                di, svc, meth = where[si]
+                m = [x for x in ds[di]["services"][0]["methods"] if x["name"] == "m" + meth[1:]][0]
+                att = [x for x in m["payload"]["attrs"] if x["name"] == "a1"][0]
+                att["default"] = hg.concrete_leaf(sh["pa"][0], hg.default_of(sh["pa"][0]))
         for v in vectors:
-            di, svc, meth = where[index[hg.shape_key(v)]]
+            di, svc, meth = where[index[(hg.shape_key(v), v.get("flag") in RD)]]
             plan.append((tag, v, base + di, svc, meth))
     pl = hg.Pipeline(ctx, name)
     pl.prepare(designs)
